@@ -106,8 +106,8 @@ CLAIMED = {
     ),
     "C18": dict(
         category="proof",
-        text="PARTIAL CLAIM -- only the second sentence of the property ('each legacy DataPipe block returns what its functional counterpart returns'). Relational contracts, all shapes and values symbolic: the real block class is instantiated on a one-example source and its real __iter__ is executed, the functional counterpart is executed on the same example, and the keys the block writes are proved equal to the function's result (and the other keys passed through) for Normalizer (float / uint8 input, gray / rgb, 1 / 3 channels) vs apply_normalization + convert_to_grayscale/rgb, Resizer vs apply_resizer, PadToStride vs apply_pad_to_stride, InstanceCentroidFinder vs generate_centroids, InstanceCropper vs generate_crops (one crop per frame), ConfidenceMapGenerator vs generate_confmaps, MultiConfidenceMapGenerator (centroid and instance modes, all slots real) vs generate_multiconfmaps. The functional generators themselves are pinned to their closed forms under C01/C04/C05/C11.",
-        note="NOT decided (no claim): agreement of the in-memory dataset, the .npz-chunk-cached dataset and the chunk-generation + streaming path (custom_datasets / get_data_chunks / streaming_datasets need sleap_io, PIL, litdata and kornia object models; custom_datasets does not import in this environment); PartAffinityFieldsGenerator vs generate_pafs (both reach the sum-over-animals loop through a contract that introduces a fresh abstract fold per call; solvers return unknown on the equality); InstanceCropper with several real instances (the block re-yields one mutated dict). Trusted: torchvision resize is a function of (tensor, size); rgb_to_grayscale weights from the torchvision documentation.",
+        text="PARTIAL CLAIM -- only the second sentence of the property ('each legacy DataPipe block returns what its functional counterpart returns'). Relational contracts, all shapes and values symbolic: the real block class is instantiated on a one-example source and its real __iter__ is executed, the functional counterpart is executed on the same example, and the keys the block writes are proved equal to the function's result (and the other keys passed through) for Normalizer (float / uint8 input, gray / rgb, 1 / 3 channels) vs apply_normalization + convert_to_grayscale/rgb, Resizer vs apply_resizer, PadToStride vs apply_pad_to_stride, InstanceCentroidFinder vs generate_centroids, InstanceCropper vs generate_crops (one crop per frame), ConfidenceMapGenerator vs generate_confmaps, MultiConfidenceMapGenerator (centroid and instance modes, all slots real) vs generate_multiconfmaps. PartAffinityFieldsGenerator and generate_pafs are each proved against the SAME closed-form contract (kept animals, per-animal unit vector x weight, sum over animals, channel layout, shape), which makes their results equal. The functional generators themselves are pinned to their closed forms under C01/C04/C05/C11.",
+        note="NOT decided (no claim): agreement of the in-memory dataset, the .npz-chunk-cached dataset and the chunk-generation + streaming path (custom_datasets / get_data_chunks / streaming_datasets need sleap_io, PIL, litdata and kornia object models; custom_datasets does not import in this environment); InstanceCropper with several real instances (the block re-yields one mutated dict). Trusted: torchvision resize is a function of (tensor, size); rgb_to_grayscale weights from the torchvision documentation.",
         technique="contract-based deductive verification: relational symbolic execution of the real block class and the real function, VCs discharged by z3 (cvc5 for unknowns)",
         design="3/C18",
     ),
